@@ -4,6 +4,8 @@
 #define CLS_BOTH 2
 int g_f;      /* witness member of QXmppMessagePrivate: arbitrary, so a fact proved for it holds for every member */
 int g_s;      /* witness member of QXmppStanzaPrivate */
+int g_e;      /* witness member of QXmppPubSubEventPrivate (every member of it is sensitive: the event payload) */
+int gh_events_after_base;   /* ghost hook: writer events counted when the base-class serializeExtensions returned */
 #define CLASS_OF(f) CLASS_QXmppMessagePrivate[f]
 #define CLASS_OF_S(f) CLASS_QXmppStanzaPrivate[f]
 #define TOUCHED_R(f) gh_rd_QXmppMessagePrivate[f]
